@@ -24,6 +24,13 @@ def build(tier):
     return groups, meta
 
 
+def replay(g, o, assigns, path):
+    """Skeleton counterexamples are paths, not inputs: the replay searches the structured family of real inputs/histories of
+    replay_src/solver_replay.cpp (mode 'faults') on the REAL solvers."""
+    from vlib import replay as RP
+    return RP.run_native(PROP, RP.src("solver_replay.cpp"), args=['faults'], timeout=900)
+
+
 MANIFEST = {
     "category": "proof",
     "text": "Proof on the extracted skeleton for all interruption points at once: the operator's exception leaves every function with its type unchanged, buffers keep consistent shapes at every exceptional exit, and init() is proved from an arbitrary object state - in particular from the state left by an interruption at any application k, single or repeated.",
